@@ -67,6 +67,9 @@ func Explore(r *mc.Run, hooks Hooks, cfgs []ParamCfg, menu []string, depthGenesi
 				depth = depthGenesis
 			}
 			name := fmt.Sprintf("chain[%s|freq=%d,maxRewardsPeriod=%d]", pn, cfg.StakingTrieFrequency, cfg.MaxRewardsPeriod)
+			if cfg.InactivityWait < 1000 {
+				name = fmt.Sprintf("chain[%s|freq=%d,maxRewardsPeriod=%d,inactivityWait=%d,extraChamber=%d]", pn, cfg.StakingTrieFrequency, cfg.MaxRewardsPeriod, cfg.InactivityWait, cfg.ExtraChamber)
+			}
 			if cfg.PoolTenths != 0 {
 				name = fmt.Sprintf("chain[%s|freq=%d,maxRewardsPeriod=%d,rewardsPool=%d/10]", pn, cfg.StakingTrieFrequency, cfg.MaxRewardsPeriod, cfg.PoolTenths)
 			}
@@ -84,8 +87,8 @@ func Explore(r *mc.Run, hooks Hooks, cfgs []ParamCfg, menu []string, depthGenesi
 // ReplayHist re-executes a violation found by Explore.
 func ReplayHist(r *mc.Run, v *mc.Violation, hooks Hooks) {
 	var cfg ParamCfg
-	fmt.Sscanf(v.Config, "{StakingTrieFrequency:%d MaxRewardsPeriod:%d WithdrawDelay:%d WithdrawRetention:%d InactivityWait:%d PenaltyInactive:%d PoolTenths:%d}",
-		&cfg.StakingTrieFrequency, &cfg.MaxRewardsPeriod, &cfg.WithdrawDelay, &cfg.WithdrawRetention, &cfg.InactivityWait, &cfg.PenaltyInactive, &cfg.PoolTenths)
+	fmt.Sscanf(v.Config, "{StakingTrieFrequency:%d MaxRewardsPeriod:%d WithdrawDelay:%d WithdrawRetention:%d InactivityWait:%d PenaltyInactive:%d PoolTenths:%d ExtraChamber:%d}",
+		&cfg.StakingTrieFrequency, &cfg.MaxRewardsPeriod, &cfg.WithdrawDelay, &cfg.WithdrawRetention, &cfg.InactivityWait, &cfg.PenaltyInactive, &cfg.PoolTenths, &cfg.ExtraChamber)
 	SetParams(cfg)
 	pn := v.System[strings.Index(v.System, "[")+1 : strings.Index(v.System, "|")]
 	h := &Hist{F: Fix(), R: r, Prefix: Prefixes[pn], Hooks: hooks}
